@@ -148,9 +148,10 @@ def r7(ctx, lib, cg, ex):
     for var, tgt in sorted(arm_map.items()):
         region = dominated_region(ex, tgt)
         locks = [c for c in ex.calls(r'FsCommand::maybe_lock$') if c.bb in region]
-        if not locks:
+        hoisted_ = [c for c in ex.calls(r'FsCommand::maybe_lock$') if c.bb not in region and ex.dominates(c.bb, sw)]
+        if not locks and not hoisted_:
             continue
-        L = locks[0]
+        L = (locks or hoisted_)[0]
         mut = []
         for c in ex.calls():
             if c.bb not in region or c.matches(r'FsCommand::maybe_lock$'):
@@ -161,7 +162,8 @@ def r7(ctx, lib, cg, ex):
             continue
         n += 1
         # the drops of a value of type Option<FileLock> / FileLock in this arm (normal control flow only)
-        drops = [bi for bi in region if not ex.blocks[bi]['cleanup'] and ex.blocks[bi]['term']['k'] == 'drop'
+        scope_ = region if locks else (ex.reachable(L.ret) if L.ret is not None else set())     # a lock taken before the match lives until after it
+        drops = [bi for bi in scope_ if not ex.blocks[bi]['cleanup'] and ex.blocks[bi]['term']['k'] == 'drop'
                  and 'FileLock' in ex.local_ty(ex.blocks[bi]['term']['p'][0])]
         early = [d for d in drops if any(m.bb in ex.reachable(d) for m in mut)]
         ctx.check(bool(drops) and not early, rule, '%s|arm=%s|guard-outlives-operation' % (EXEC, var), (ex.where(ex.blocks[early[0]]['term']['line']) if early else L.where()),
@@ -187,6 +189,11 @@ def r1(ctx, lib, cg, ex):
     for var, tgt in sorted(arm_map.items()):
         region = dominated_region(ex, tgt)
         locks = [c for c in ex.calls(r'FsCommand::maybe_lock$') if c.bb in region]
+        # one lock taken before the match, on `self.file_to_remove()`, stands for a lock at the head of every arm: the sibling names the
+        # affected file of each variant (the table `fields` is read off that very function)
+        hoisted = [c for c in ex.calls(r'FsCommand::maybe_lock$') if c.bb not in region and ex.dominates(c.bb, sw) and src == 'file_to_remove'
+                   and backslice(ex, [c.args[0]]).has_call(r'FsCommand::file_to_remove$') and 1 in backslice(ex, [c.args[0]]).params]
+        locks = locks + hoisted
         locks_total += len(locks)
         mut = []
         for c in ex.calls():
@@ -213,7 +220,9 @@ def r1(ctx, lib, cg, ex):
         for L in locks:
             sl = backslice(ex, [L.args[0]])
             want = fields.get(var)
-            if want not in sl.field_names() or 'path' not in sl.field_names():
+            if L in hoisted:
+                pass
+            elif want not in sl.field_names() or 'path' not in sl.field_names():
                 why.append('lock path derives from {%s}, expected field `%s.path`' % (','.join(sorted(sl.field_names())), want))
                 continue
             fl = backslice(ex, [L.args[1]])
